@@ -357,6 +357,33 @@ func init() {
 			s.End()
 			s.Blocks(1, allHdr)
 		}},
+		Directed{"mingas_above_intrinsic", []string{"C16", "C15", "C17"}, fam(0), func(s *Script) {
+			// governance raises the minimum gas above what a simple contract transaction uses (21000): the sender still
+			// pays for the gas used, and the proposer receives exactly that
+			s.Blocks(3, allHdr)
+			s.Begin(allHdr) // 4
+			s.expect(OK(s.Propose(1, 6, 2, 10, `{"minTrxGas":"50000"}`)), "proposal: minimum gas 50000")
+			ev, sink := s.Deploy(4, prog("sink", nil), 0, "0", cgas)
+			s.expect(OK(ev), "deploy a contract that accepts value")
+			s.End()
+			p := s.Proposals()
+			s.Blocks(1, allHdr)
+			s.Begin(allHdr) // 6
+			for v := 1; v <= 3 && len(p) == 1; v++ {
+				s.Vote(v, p[0], 0)
+			}
+			s.End()
+			s.Blocks(4, allHdr) // 7..10: applied at 10
+			for i := 0; i < 3; i++ {
+				s.Begin(Hdr{Proposer: 1 + i%3})
+				s.expect(!OK(s.CallC(5, s.R.KR.Addr(6), nil, "1", 49999)), "gas limit below the new minimum")
+				s.expect(OK(s.CallC(5, s.R.KR.Addr(6), nil, "1", 60000)), "a contract-type payment that uses 21000 of 60000 gas")
+				s.expect(OK(s.TransferTo(6, sink, "5", 70000)), "a plain transfer to a contract, 70000 gas limit")
+				s.expect(OK(s.TransferTo(4, s.R.KR.Addr(5), "1e18", 50000)), "a native transfer at the new minimum")
+				s.End()
+			}
+			s.Blocks(1, allHdr)
+		}},
 		Directed{"evm_mixed", []string{"C17", "C02", "C04", "C16"}, fam(2), func(s *Script) {
 			// contract transactions interleaved with staking, withdrawal and fees on the same accounts; the proposer uses contracts
 			s.Blocks(3, allHdr)
